@@ -115,7 +115,7 @@ def gen_nodata(rng, dtype):
         return pool[int(rng.integers(0, len(pool)))]
     info = np.finfo(dt)
     return [0.0, -9999.0, float(info.max), float(info.min), float("nan"), -1.5,
-            float(dt.type(0.1))][int(rng.integers(0, 7))]
+            float(dt.type(0.1)), -0.0, float(info.tiny)][int(rng.integers(0, 9))]
 
 
 def same_scalar(a, b):
@@ -123,7 +123,9 @@ def same_scalar(a, b):
     b = np.asarray(b)
     if a.dtype.kind == "f" or b.dtype.kind == "f":
         fa, fb = float(a), float(b)
-        return (np.isnan(fa) and np.isnan(fb)) or fa == fb
+        # ("exactly": the sign of a zero is part of the number)
+        return (np.isnan(fa) and np.isnan(fb)) or \
+            (fa == fb and (fa != 0 or bool(np.signbit(fa)) == bool(np.signbit(fb))))
     return int(a) == int(b)
 
 
@@ -132,7 +134,7 @@ def geometry_equal(g1, g2):
     if tuple(g1.shape) != tuple(g2.shape):
         d.append("shape")
     for k in ("xllcorner", "yllcorner", "cellsize"):
-        if float(getattr(g1, k)) != float(getattr(g2, k)):
+        if not same_scalar(np.float64(getattr(g1, k)), np.float64(getattr(g2, k))):
             d.append(k)
     if np.dtype(g1.dtype) != np.dtype(g2.dtype):
         d.append("dtype")
@@ -174,9 +176,44 @@ def run_case(ctx, case):
     if dt.itemsize == 8:
         ctx.tag("dtype:64bit")
     tagk = f"{dt.kind}{dt.itemsize * 8}"
-    gr = g.Grid("verifgrid", ncols, nrows, cellsize=case["csz"],
-                xllcorner=case["xll"], yllcorner=case["yll"], dtype=dtype,
-                nodata=nodata, comment="verif")
+    # the cell type is given as the scalar type, as a numpy.dtype instance, or by name
+    dform = int(case["seed"]) % 4
+    dgiven = [dtype, dt, dtype, dt.name][dform]
+    if dform in (1, 3):
+        ctx.tag("dtype-given-as:" + ["", "dtype-instance", "", "name"][dform])
+    try:
+        gr = g.Grid("verifgrid", ncols, nrows, cellsize=case["csz"],
+                    xllcorner=case["xll"], yllcorner=case["yll"], dtype=dgiven,
+                    nodata=nodata, comment="verif")
+    except Exception as e:
+        if dform == 3:
+            # (a type name is not among the documented forms: a refusal is fine)
+            ctx.extra["dtype-name-refused"] += 1
+            gr = g.Grid("verifgrid", ncols, nrows, cellsize=case["csz"],
+                        xllcorner=case["xll"], yllcorner=case["yll"], dtype=dtype,
+                        nodata=nodata, comment="verif")
+        else:
+            ctx.check("ctor.dtype-instance", False, f"Grid|raises|dtype-given-as-numpy-dtype|{tagk}",
+                      case, {"exc": repr(e)[:200], "dtype": repr(dgiven)})
+            return
+    # ... or was changed after construction through the dtype attribute (a float grid
+    # with the same no-data value turned into the type of the case): the dictionary copy
+    # of such a grid is the same grid
+    if int(case["seed"]) % 3 == 0 and dt.kind in "iu" and dt.itemsize >= 2:
+        ctx.tag("dtype-changed-after-construction")
+        try:
+            g0 = g.Grid("was-float", ncols, nrows, cellsize=case["csz"],
+                        xllcorner=case["xll"], yllcorner=case["yll"], nodata=-9999.0
+                        if dt.kind == "i" else 255.0)
+            g0.dtype = dgiven if dform != 3 else dtype
+            g0b = g.Grid.from_dict(copy.deepcopy(g0.to_dict()))
+            dd_ = geometry_equal(g0, g0b)
+            ctx.check("dict.after-dtype-change", not dd_,
+                      "dict|metadata-after-dtype-change:" + "+".join(dd_), case,
+                      lambda: {"differs": dd_, "nodata": [repr(g0.nodata), repr(g0b.nodata)]})
+        except Exception as e:
+            ctx.check("dict.after-dtype-change", False, f"dict|raises-after-dtype-change|{tagk}",
+                      case, {"exc": repr(e)[:200]})
     if not same_scalar(gr.nodata, dtype(0)):
         ctx.tag("nodata:nondefault")
     ctx.tag("values:extreme")
@@ -704,9 +741,56 @@ def run_catchment_case(ctx, case):
     ctx.nontrivial("cat", codes, o, inlets)
 
 
+def run_big_zip(ctx, variant):
+    """rasters of 17 to 40 MB read from archives written with and without compression
+    (a member larger than any plausible block size, its compressed size much smaller)"""
+    g = mods()
+    nr, nc, dtype = [(1500, 1500, np.float64), (2300, 2300, np.float32),
+                     (2100, 2400, np.float64), (4100, 4100, np.int16)][variant % 4]
+    rng = np.random.default_rng(ctx.seed + variant)
+    vals = (np.arange(nr * nc, dtype=np.int64) % 977).reshape((nr, nc)).astype(dtype)
+    vals[rng.integers(0, nr, 50), rng.integers(0, nc, 50)] = dtype(7)
+    gr = g.Grid("big", nc, nr, cellsize=0.05, xllcorner=112.0, yllcorner=-44.0, dtype=dtype)
+    gr.data = vals
+    wd = workdir() / f"bigzip{variant}"
+    shutil.rmtree(wd, ignore_errors=True)
+    wd.mkdir(parents=True)
+    ctx.evaluated()
+    ctx.tag("zip:member-larger-than-16MiB")
+    case = {"kind": "bigzip", "variant": variant, "shape": [nr, nc],
+            "dtype": np.dtype(dtype).str}
+    try:
+        fbil = str(wd / "grid.bil")
+        gr.save(fbil)
+        fhdr = str(wd / "grid.hdr")
+        for comp, cname in ((zipfile.ZIP_DEFLATED, "deflated"), (zipfile.ZIP_STORED, "stored"),
+                            (zipfile.ZIP_BZIP2, "bzip2"))[: 2 + variant % 2]:
+            fz = str(wd / f"grid_{cname}.zip")
+            with zipfile.ZipFile(fz, "w", compression=comp) as z:
+                z.write(fhdr, "sub/grid.hdr")
+                z.write(fbil, "sub/grid.bil")
+            ctx.api("Grid.from_zip")
+            try:
+                g2 = g.Grid.from_zip(fz, "sub/grid.hdr")
+                ok = np.dtype(g2.dtype) == np.dtype(dtype) and cells_equal(g2.data, vals)
+                det = {"compression": cname, "differ": int((np.asarray(g2.data) != vals).sum())
+                       if np.asarray(g2.data).shape == vals.shape else "shape"}
+            except Exception as e:
+                ok, det = False, {"compression": cname, "exc": repr(e)[:200]}
+            ctx.check("load.big-zip-member", ok, f"save-load|from_zip|large-member|{cname}",
+                      case, det)
+            os.remove(fz)
+    finally:
+        shutil.rmtree(wd, ignore_errors=True)
+    ctx.nontrivial("bigzip", variant)
+
+
 def run(ctx):
     rng = ctx.rng(1)
     nrep = 40 if ctx.tier == "quick" else 3000
+    if ctx.shard in (3, 7) or (ctx.tier == "thorough" and ctx.shard in (11, 13)):
+        run_big_zip(ctx, {3: 0, 7: 1, 11: 2, 13: 3}[ctx.shard] if ctx.nshards > 1 else
+                    ctx.seed % 4)
     try:
         for it0 in range(nrep):
             it = it0 + ctx.shard
@@ -750,6 +834,8 @@ def run(ctx):
 
 
 def replay(ctx, case):
+    if case.get("kind") == "bigzip":
+        return run_big_zip(ctx, int(case.get("variant", 0)))
     try:
         if case["kind"] == "grid":
             run_case(ctx, case)
